@@ -176,9 +176,9 @@ N == Len(InstSeq[inst])
 Remaining == (1..N) \ Range(order)
 Mod1(x) == ((x - 1) % N) + 1
 Allowed ==
-    IF OrderMode = "all" /\ N <= 5 THEN Remaining
+    IF OrderMode = "all" /\ N <= 4 THEN Remaining
     ELSE IF OrderMode = "all" THEN
-         \* more than five definitions: every rotation, in both directions (2N of the N! orders)
+         \* more than four definitions: every rotation, in both directions (2N of the N! orders)
          IF order = <<>> THEN Remaining
          ELSE IF Len(order) = 1 THEN {Mod1(order[1] + 1), Mod1(order[1] - 1)} \cap Remaining
          ELSE {Mod1(order[Len(order)] + (IF Mod1(order[1] + 1) = order[2] THEN 1 ELSE N - 1))} \cap Remaining
